@@ -92,7 +92,7 @@ def gen_session(rng, tier='quick', exact=None, alpha_kinds=('fixed', 'single', '
             else:
                 e = None
             ents.append([a, e])
-        universe = ['dynamic', ents]
+        universe = ['dynamic', ents] + (['nat'] if rng.random() < 0.3 else [])     # missing entries as None or as NaT
     # alpha
     lookbacks = None
     if kind == 'fixed':
